@@ -5,6 +5,7 @@ import (
 	"os"
 	"path/filepath"
 	"sort"
+	"strconv"
 	"strings"
 	"time"
 
@@ -168,11 +169,34 @@ func runC03(r *core.Run) (bool, string) {
 			mayReject[cp.Name] = true
 		}
 	}
+	// declarations of look-alike packages that goose refused (by package): a case that needs one is not compared
+	rejectedDecls := map[string]map[string]bool{}
 	for _, e := range gerrs {
 		lk := false
 		for n := range mayReject {
 			if strings.Contains(e.Src, "/cases/"+n+"/") {
 				lk = true
+				parts := strings.Split(e.Src, ":")
+				if len(parts) >= 3 {
+					ln, _ := strconv.Atoi(parts[len(parts)-2])
+					for _, cp := range cps {
+						if cp.Name != n {
+							continue
+						}
+						for _, fr := range funcRanges(cp.Source) {
+							if ln >= fr.Start && ln <= fr.End {
+								if rejectedDecls[n] == nil {
+									rejectedDecls[n] = map[string]bool{}
+								}
+								bare := fr.Name
+								if i := strings.Index(bare, ":"); i >= 0 {
+									bare = bare[i+1:]
+								}
+								rejectedDecls[n][bare] = true
+							}
+						}
+					}
+				}
 			}
 		}
 		if lk {
@@ -222,6 +246,18 @@ func runC03(r *core.Run) (bool, string) {
 		if len(res.GoOutcomes) == 0 {
 			r.Inconclusive("no-go-result")
 			return
+		}
+		if j.cp.MayReject {
+			needsRejected := false
+			for n := range reachableNames(j.cp.Source, j.cn) {
+				if rejectedDecls[j.cp.Name][n] {
+					needsRejected = true
+				}
+			}
+			if needsRejected {
+				r.Count("lookalike_cases_not_compared", 1)
+				return
+			}
 		}
 		prog := progs[j.cp.Name]
 		if len(prog.Index[j.cn]) == 0 {
